@@ -5,6 +5,7 @@ package main
 
 import (
 	"fmt"
+	"go/token"
 	"strings"
 
 	"golang.org/x/tools/go/ssa"
@@ -775,6 +776,7 @@ func runC07(c *Ctx) {
 	ruleNoExit(c, "R07.b")
 	ruleAcceptLoops(c, "R07.c")
 	ruleReplyBufferLocal(c, "R07.d")
+	ruleNilNilDeref(c, "R07.e")
 	c.assume("handlers do not call os.Exit themselves; stack exhaustion and out-of-memory are not recoverable and not decided")
 }
 
@@ -1002,4 +1004,94 @@ func wrapsSocket(call *ssa.Call) bool {
 		}
 	}
 	return false
+}
+
+// ruleNilNilDeref: a function that can return (nil, nil) — Array.Next at the end of the request
+// array, Parser.Next at end of stream — hands its caller a nil pointer with no error. In the
+// framework every dereference of such a result (field access, method call on it) must be under
+// a non-nil test of that very value (directly, or of the loop phi that carries it). Otherwise a
+// request such as an empty command array panics inside the request loop: the connection is
+// dropped without a reply and the root span of the request stays open (C07, C20).
+func ruleNilNilDeref(c *Ctx, rid string) {
+	c.rule(rid, "every dereference (field access, method call) in redis/... of the pointer result of a function that can return (nil, nil) is dominated by a non-nil test of that value or of the phi carrying it")
+	var all []*ssa.Function
+	all = append(all, c.P.RepoFuncs(pkgProto)...)
+	all = append(all, c.P.RepoFuncs(pkgRedis)...)
+	prod := nilNilProducers(all)
+	nsites := 0
+	for _, f := range c.P.RepoFuncs(pkgRedis) {
+		if !inFramework(f) {
+			continue
+		}
+		ord := 0
+		allInstrs(f, func(ins ssa.Instruction) {
+			call, ok := ins.(*ssa.Call)
+			if !ok || call.Referrers() == nil {
+				return
+			}
+			callee := staticCallee(call.Common())
+			if callee == nil || prod[callee] == nil {
+				return
+			}
+			ord++
+			nsites++
+			key := fmt.Sprintf("%s/nilnil#%d:%s", c.P.key(f), ord, fnName(callee))
+			bad := ""
+			for _, r := range *call.Referrers() {
+				ex, ok := r.(*ssa.Extract)
+				if !ok || ex.Index != 0 {
+					continue
+				}
+				if b := unguardedDeref(c, ex, map[ssa.Value]bool{}); b != "" {
+					bad = b
+				}
+			}
+			if bad == "" {
+				c.ok(rid, key, c.P.instrPos(call), "dereferenced only under a non-nil test")
+			} else {
+				c.bad(rid, key, c.P.instrPos(call), bad)
+			}
+		})
+	}
+	c.count("nil-nil-result-sites", nsites)
+	c.floor("nil-nil-result-sites", 8)
+}
+
+func unguardedDeref(c *Ctx, v ssa.Value, seen map[ssa.Value]bool) string {
+	if seen[v] || v.Referrers() == nil {
+		return ""
+	}
+	seen[v] = true
+	nonNilAt := func(b *ssa.BasicBlock) bool {
+		for _, at := range factsAt(b) {
+			if at.Kind == "nil" && !at.Pos && at.X == v {
+				return true
+			}
+		}
+		return false
+	}
+	for _, u := range *v.Referrers() {
+		deref := false
+		switch x := u.(type) {
+		case *ssa.Phi:
+			if b := unguardedDeref(c, x, seen); b != "" {
+				return b
+			}
+		case *ssa.FieldAddr:
+			deref = x.X == v
+		case *ssa.UnOp:
+			deref = x.Op == token.MUL && x.X == v
+		case ssa.CallInstruction:
+			cc := x.Common()
+			if cc.IsInvoke() {
+				deref = cc.Value == v
+			} else if cal := staticCallee(cc); cal != nil && cal.Signature.Recv() != nil && len(cc.Args) > 0 && cc.Args[0] == v {
+				deref = true
+			}
+		}
+		if deref && !nonNilAt(u.Block()) {
+			return fmt.Sprintf("the result may be nil with a nil error (end of the array / of the stream) and is dereferenced at %s (%s) without a non-nil test: the request panics inside the connection loop", c.P.instrPos(u), u.String())
+		}
+	}
+	return ""
 }
